@@ -45,7 +45,19 @@ impl State {
         if self.pool <= 4 {
             ["a", "b", "c", "d"][k as usize % 4].to_string()
         } else {
-            format!("n{k}")
+            // larger pools: mostly plain names, and a few unusual ones (empty, differing only in case, non-ASCII, a
+            // common prefix, very long): a name is an arbitrary String for the list
+            match k {
+                0 => String::new(),
+                1 => "N".to_string(),
+                2 => "n".to_string(),
+                3 => "\u{e9}t\u{e9}".to_string(),
+                4 => "p1".to_string(),
+                5 => "p10".to_string(),
+                6 => "x".repeat(300),
+                7 => "n 7".to_string(),
+                _ => format!("n{k}"),
+            }
         }
     }
 
